@@ -35,6 +35,7 @@ EXPLANATION = (
   " (COND-supported) for every assignment of the writers' boolean options, each style property a writer method or tag helper reads under that assignment is kept by the style whitelist the constructor builds for it;"
   ' (LOOP-break) no loop over the items of a collection is left by a branch that does nothing but `break` on a test about the item (end-of-input sentinels, flags set in the loop body and searches whose variable is read afterwards excepted): an item that is to be skipped does not end the processing of the items after it;'
   + " (FIN-merge) the paragraph merger, interpreted on sample snapshots (divs nested at several depths, a nested div between paragraphs, one or several regions), leaves one paragraph per region holding the spans of all its paragraphs in document order with one line break between consecutive paragraphs;"
+  + " (DEP-round, shared with C12) ClockTime.from_seconds, which prints every cue time, derives hours, minutes, seconds and milliseconds from one value rounded once to the millisecond;"
 )
 RULE_TEXT = "per tag pair, per tag append, per supported value, per text flow"
 UNDECIDED = ["cue-setting values (line, align) vs the computed position and alignment", "no empty line / no '-->' inside an SRT payload (SRT has no escaping mechanism)",
@@ -611,6 +612,8 @@ def check_line_position(ctx):
 
 
 def run(ctx):
+  from . import c12 as _c12r
+  _c12r.check_single_rounding(ctx)
   from ..rules import probes as _probes
   ctx.floor("FIN-merge", "sample snapshots decided", _probes.check_paragraph_merge(ctx), 5)
   check_tag_pairing(ctx, "ttconv.srt.writer:SrtContext.append_element", wrapper_test="self._text_formatting")
